@@ -100,7 +100,7 @@ func (e *c06sEnv) write() (string, string, bool) {
 	if e.r.Chance(25) {
 		qs = append(qs, fmt.Sprintf(`DELETE FROM foo WHERE id%%5=%d`, e.r.Intn(5)))
 	}
-	mustExecute(e.t, e.s, qs)
+	c06sExec(e.t, e.s, qs)
 	salt, frames, hdr := e.readWAL()
 	if !hdr {
 		return "", "", false
@@ -177,13 +177,13 @@ func c06sDump(t *testing.T, s *Store) string {
 // c06sBarrier waits until every log entry written before the restart has been applied.
 func c06sBarrier(t *testing.T, s *Store) {
 	var err error
-	for i := 0; i < 100; i++ {
+	for deadline := time.Now().Add(60 * time.Second); time.Now().Before(deadline); {
 		if err = s.Barrier(); err == nil {
 			return
 		}
 		time.Sleep(100 * time.Millisecond)
 	}
-	t.Fatalf("barrier after restart: %v", err)
+	ssmAbandonNow(fmt.Sprintf("barrier after restart: %v", err)) // the log is not re-applied yet: nothing to judge
 }
 
 func c06sStagingFiles(s *Store) []string {
@@ -195,9 +195,39 @@ func c06sStagingFiles(s *Store) []string {
 	return out
 }
 
+// c06sExec executes statements through the store; requests refused before the log (no leader on
+// a loaded machine) are retried, an ambiguous outcome abandons the schedule.
+func c06sExec(t *testing.T, s *Store, qs []string) {
+	err := ssmRetry(s, func() error {
+		res, _, err := s.Execute(context.Background(), executeRequestFromStrings(qs, false, false))
+		if err != nil {
+			return err
+		}
+		for _, r := range res {
+			if r.GetError() != "" {
+				t.Fatalf("statement failed: %s", r.GetError())
+			}
+		}
+		return nil
+	})
+	if err != nil {
+		if ssmLoadRelated(err) {
+			ssmAbandonNow(fmt.Sprintf("execute: %v", err))
+		}
+		t.Fatalf("execute %v: %v", qs, err)
+	}
+}
+
 func c06sSchedule(t *testing.T, rep *vfReport, r *vfRng, rounds int) (ops, impl []string) {
+	var noEnv *ssmEnv
+	defer ssmGuard(rep, &noEnv, &ops, &impl)
 	s, ln := mustNewStore(t)
 	defer ln.Close()
+	defer func() {
+		if s.open.Is() {
+			s.Close(true)
+		}
+	}()
 	s.NoSnapshotOnClose = true
 	if err := s.Open(); err != nil {
 		t.Fatalf("open: %v", err)
@@ -205,11 +235,11 @@ func c06sSchedule(t *testing.T, rep *vfReport, r *vfRng, rounds int) (ops, impl 
 	if err := s.Bootstrap(NewServer(s.ID(), s.Addr(), true)); err != nil {
 		t.Fatal(err)
 	}
-	if _, err := s.WaitForLeader(10 * time.Second); err != nil {
-		t.Fatal(err)
+	if _, err := s.WaitForLeader(60 * time.Second); err != nil {
+		ssmAbandonNow(fmt.Sprintf("no leader within 60 s: %v", err))
 	}
 	e := &c06sEnv{t: t, s: s, readers: map[int]*dbsql.Conn{}, r: r, ids: map[string]int{}}
-	mustExecute(t, s, []string{`CREATE TABLE foo (id INTEGER NOT NULL PRIMARY KEY, name TEXT, b BLOB)`, `INSERT INTO foo(name) VALUES('first')`})
+	c06sExec(t, s, []string{`CREATE TABLE foo (id INTEGER NOT NULL PRIMARY KEY, name TEXT, b BLOB)`, `INSERT INTO foo(name) VALUES('first')`})
 	// first snapshot is a full one; it becomes the base of the chain
 	if err := s.Snapshot(0); err != nil {
 		t.Fatalf("first snapshot: %v", err)
@@ -342,8 +372,8 @@ func c06sSchedule(t *testing.T, rep *vfReport, r *vfRng, rounds int) (ops, impl 
 		rep.Case(strings.Join(hist, " "), true)
 		return
 	}
-	if _, err := s.WaitForLeader(10 * time.Second); err != nil {
-		t.Fatal(err)
+	if _, err := s.WaitForLeader(60 * time.Second); err != nil {
+		ssmAbandonNow(fmt.Sprintf("no leader within 60 s: %v", err))
 	}
 	c06sBarrier(t, s)
 	rebuilt := c06sDump(t, s)
@@ -370,6 +400,7 @@ func TestVerifC06Store(t *testing.T) {
 		allOps = append(allOps, ops)
 		allImpl = append(allImpl, impl)
 	}
+	ssmFloor(rep)
 	rep.vfCompareSegments("walckpt", allOps, allImpl)
 	_ = filepath.Join
 }
